@@ -59,4 +59,5 @@ package k8s
 //@ for C09 C15
 //@ # interface contract (assumed; the implementation builds the list from non-nil pod objects)
 //@ func Kubernetes.GetLocalPods
+//@   trusted
 //@   ensures-assumed forall i int :: 0 <= i && i < len(result0) ==> result0[i] != nil
